@@ -391,6 +391,8 @@ class C16(Monitor):
 
     def step(self, S, tr):
         cfg = self.cfg
+        if tr.ev[0] == 'callu':
+            return self.step_unkeyable(S, tr)
         if tr.ev[0] != 'raise':
             return []
         out = []
@@ -416,8 +418,36 @@ class C16(Monitor):
                         'failed call changed %s' % (diff,)))
         return out
 
+    def step_unkeyable(self, S, tr):
+        """safe decorators never fail because an argument is unhashable / cannot be encoded"""
+        cfg = self.cfg
+        out = []
+        vk = tr.extra.get('value_kind')
+        km = cfg.get('keymap', 'default')
+        if tr.exc is not None:
+            out.append((_sig(cfg, 'C16', 'safe-call-raises', exc=type(tr.exc).__name__, value=vk, keymap=km,
+                             archived=bool(tr.pre.archived)),
+                        'safe decorator raised %r for argument of kind %s (keymap %s)' % (tr.exc, vk, km)))
+            return out
+        want = ('u', type(tr.extra['value']).__name__)
+        if tr.ret != want:
+            out.append((_sig(cfg, 'C16', 'safe-call-wrong-result', value=vk, keymap=km),
+                        'call with %s argument returned %r, function returns %r' % (vk, tr.ret, want)))
+        if not tr.extra.get('keyable'):
+            if len(tr.logdelta) != 1:
+                out.append((_sig(cfg, 'C16', 'safe-fallback-evaluations', value=vk, keymap=km),
+                            'un-keyable argument: function evaluated %d times (expected exactly once)' % len(tr.logdelta)))
+            d = tuple(b - a for a, b in zip(tr.pre.info[:3], tr.post.info[:3]))
+            if d != (0, 1, 0):
+                out.append((_sig(cfg, 'C16', 'safe-fallback-not-a-miss', value=vk, keymap=km),
+                            'un-keyable argument changed (hit,miss,load) by %r, expected (0,1,0)' % (d,)))
+            if snap_key(tr.pre) != snap_key(tr.post):
+                out.append((_sig(cfg, 'C16', 'safe-fallback-changes-state', value=vk, keymap=km),
+                            'un-keyable argument changed cache / archive / bookkeeping'))
+        return out
+
     def nontrivial(self, S, tr):
-        return tr.ev[0] == 'raise' and len(tr.logdelta) == 1
+        return (tr.ev[0] == 'raise' and len(tr.logdelta) == 1) or (tr.ev[0] == 'callu' and not tr.extra.get('keyable', True))
 
 
 class C18(Monitor):
